@@ -523,7 +523,7 @@ PROPS = {
     "C03": {"seq": [("cas", 1024, None, 20, 30)], "conc": [("base", 500)], "pol": 150, "relevant": "RMTP"},
     "C04": {"seq": [("counter", 1024, None, 20, 30)], "conc": [("rmw", 500)], "pol": 40, "relevant": "RMTP",
             "known_classes": True},
-    "C16": {"seq": [("policy", 1024, 200, 10, 30)], "conn": [("idle", 1024, None, 3, 14)],
+    "C16": {"seq": [("policy", 1024, 200, 10, 30), ("cas", 1024, None, 40, 50)], "conn": [("idle", 1024, None, 3, 14)],
             "conc": [("base", 250), ("rmw", 250)], "sweep": 300, "pol": 100, "relevant": "TS",
             "monitor_kinds": ["STUCK"]},
     "C05": {"seq": [("ttl", 1024, 1000000, 15, 40), ("ttl", 1024, None, 80, 50), ("flush", 1024, None, 60, 50), ("mix", 1024, None, 30, 40)],
